@@ -4,7 +4,9 @@
 (* gmars binary is checked against                                          *)
 (*   Config(flags)   the configuration the options describe (presets as     *)
 (*                   documented in README.md; no read/write limit smaller   *)
-(*                   than the core is documented, so limits = core size)    *)
+(*                   than the core is documented, so limits = core size;    *)
+(*                   the minimum distance, also undocumented, is the length *)
+(*                   except for icws where the library's table says 100)    *)
 (*   Asm!Meaning     what the generated warrior files denote                *)
 (*   MARS!RunW       the battle at the fixed placement of warrior 2         *)
 (* Fixed placement: both result lines must equal the tallies of r identical *)
@@ -21,7 +23,7 @@ Presets == [nop94   |-> [d |-> 94, M |-> 8000, L |-> 100, P |-> 8000, C |-> 8000
             nopnano |-> [d |-> 94, M |-> 80,   L |-> 5,   P |-> 80,   C |-> 800]]
 Config(f) ==
   IF f.preset # "" THEN LET p == Presets[IF f.preset = "88" THEN "eightyeight" ELSE f.preset] IN
-                        [d |-> p.d, M |-> p.M, L |-> p.L, D |-> p.L, P |-> p.P, C |-> p.C, RL |-> p.M, WL |-> p.M]
+                        [d |-> p.d, M |-> p.M, L |-> p.L, D |-> IF f.preset = "icws" THEN 100 ELSE p.L, P |-> p.P, C |-> p.C, RL |-> p.M, WL |-> p.M]
   ELSE [d |-> IF f.eight = 1 THEN 88 ELSE 94, M |-> f.s, L |-> f.l, D |-> f.l, P |-> f.p, C |-> f.c, RL |-> f.s, WL |-> f.s]
 
 \* one battle: warrior 1 at 0, warrior 2 (if any) at F
